@@ -56,7 +56,8 @@ def run(tier, seed):
     for ti, (name, src, by_coin, lines, per_shot) in enumerate(ctemplates):
         for flag, ann, echo in gen_shots.configs(tier):
             n = ann or flag or 1
-            coins = [0 if k % 3 == 1 else 1 for k in range(n)]
+            # alternate between a pattern whose first shot takes the branch and one whose first shot skips it
+            coins = [0 if k % 3 == 1 else 1 for k in range(n)] if (flag + ann) % 2 == 0 else [1 if k % 3 == 1 else 0 for k in range(n)]
             draws = []
             for c_ in coins:
                 draws += [0.25 if c_ else 0.75] + [0.5] * (per_shot - 1)
